@@ -432,6 +432,14 @@ type W struct {
 	rel    func()
 	LogBuf *bytes.Buffer
 	NoWait bool // do not wait for quiescence at the end of Do (outside a bubble)
+	// Alternate routes every second exchange of Do through a second transport that shares the store and the
+	// origin (two processes or clients over one cache directory): whatever a transport remembers outside the
+	// store is then out of date for half of the exchanges.
+	Alternate bool
+	rt2       http.RoundTripper
+	rel2      func()
+	nDo       int
+	opt       Opt
 }
 
 // Opt configures New.
@@ -447,7 +455,7 @@ func New(o Opt) *W { return NewWithOrigin(o, NewOrigin()) }
 
 // NewWithOrigin is New with an existing scripted origin (e.g. a second transport over the same store).
 func NewWithOrigin(o Opt, origin *Origin) *W {
-	w := &W{Origin: origin, Epoch: time.Now()}
+	w := &W{Origin: origin, Epoch: time.Now(), opt: o}
 	dsn := o.DSN
 	if dsn == "" {
 		if o.Conn != nil {
@@ -489,6 +497,23 @@ func (w *W) Close() {
 	if w.rel != nil {
 		w.rel()
 	}
+	if w.rel2 != nil {
+		w.rel2()
+	}
+}
+
+// second returns the second transport over the same store and origin.
+func (w *W) second() http.RoundTripper {
+	if w.rt2 == nil {
+		o := w.opt
+		o.Logger = ""
+		if o.DSN == "" && o.Conn == nil {
+			o.Conn = w.Conn
+		}
+		w2 := NewWithOrigin(o, w.Origin)
+		w.rt2, w.rel2 = w2.RT, w2.rel
+	}
+	return w.rt2
 }
 
 // Obs is what the client observed for one exchange.
@@ -574,7 +599,12 @@ func (w *W) Do(req *http.Request) *Obs {
 				o.PanicStack = stackTrace()
 			}
 		}()
-		o.Resp, o.Err = w.RT.RoundTrip(req)
+		rt := w.RT
+		if w.Alternate && w.nDo%2 == 1 {
+			rt = w.second()
+		}
+		w.nDo++
+		o.Resp, o.Err = rt.RoundTrip(req)
 	}()
 	o.Dur = time.Since(o.At)
 	if w.Conn != nil {
